@@ -127,9 +127,25 @@ func (sr *SR) datumRename() {
 }
 
 func (sr *SR) parseWKTSpheroid(secName []string, secData string) error {
-	d := strings.Split(secData, ",")
+	// The name is a quoted string and may hold commas of its own
+	// ("GRS 1980(IUGG, 1980)"): the values are split after it, not inside it.
+	name, rest := secData, ""
+	if c := strings.Index(secData, ","); c >= 0 {
+		name, rest = secData[:c], secData[c+1:]
+	}
+	if o := strings.Index(secData, "\""); o >= 0 {
+		if c := strings.Index(secData[o+1:], "\""); c >= 0 {
+			end := o + 1 + c + 1
+			name = secData[:end]
+			rest = strings.TrimPrefix(strings.TrimSpace(secData[end:]), ",")
+		}
+	}
+	d := append([]string{name}, strings.Split(rest, ",")...)
 	for i := range d {
 		d[i] = strings.TrimSpace(d[i]) // white space after a comma is not part of the value
+	}
+	if len(d) < 3 {
+		return fmt.Errorf("in proj.parseWKTSpheroid: '%s' does not give a name, a semi-major axis and an inverse flattening", secData)
 	}
 	sr.Ellps = strings.Replace(strings.Trim(d[0], "\""), "_19", "", -1)
 	sr.Ellps = strings.Replace(sr.Ellps, "clarke_18", "clrk", -1)
